@@ -34,20 +34,27 @@ inductive Op (V : Type)
   | flush
 deriving Repr
 
-/-- `FlatIndex.Add` / `Remove` / `Flush` -/
+/-- `flushLocked`: physically drop the soft-deleted entries. -/
+def flushed (s : State V) : State V :=
+  { s with vecs := s.vecs.filter (fun p => p.1 ∉ s.deleted), deleted := [] }
+
+/-- `FlatIndex.Add` / `Remove` / `Flush`.
+    `Add` of an id that is still soft-deleted purges the tombstoned entries first
+    (`flushLocked`), then appends (comet commit "fix: re-adding a soft-deleted id…"). -/
 def step (m : Metric V S) (s : State V) : Op V → State V × Option Err
   | .add id v =>
       if m.dimOf v ≠ s.dim then (s, some .dim) else
       match m.pre v with
       | none => (s, some .zero)
-      | some v' => ({ s with vecs := s.vecs ++ [(id, v')] }, none)
+      | some v' =>
+        let s1 := if id ∈ s.deleted then flushed s else s
+        ({ s1 with vecs := s1.vecs ++ [(id, v')] }, none)
   | .remove id =>
       if ¬ s.vecs.any (·.1 == id) then (s, some .notFound) else
       if id ∈ s.deleted then (s, some .deleted) else
       ({ s with deleted := id :: s.deleted }, none)
   | .flush =>
-      if s.deleted.isEmpty then (s, none) else
-      ({ s with vecs := s.vecs.filter (fun p => p.1 ∉ s.deleted), deleted := [] }, none)
+      if s.deleted.isEmpty then (s, none) else (flushed s, none)
 
 def run (m : Metric V S) (s : State V) (ops : List (Op V)) : State V :=
   ops.foldl (fun s op => (step m s op).1) s
